@@ -26,6 +26,7 @@ func init() {
 }
 
 func runC42(c *eng.Ctx) {
+	defer runC42Frames(c)
 	p := c.P
 	R := "storage/remote:"
 	const (
